@@ -16,8 +16,14 @@ func VerifC35Links() {
 	toks := []string{"_", "layers.x", "layers.y", "layers.w", "scenarios.s", "layers.z", "steps.x", "LAYERS.x", "layers.X"}
 	k := nd.Choose("ntok", 1, nd.Param("T", 2))
 	var link []string
+	// after the first token also single path elements: a board name without its kind, a kind without a name
+	more := append(append([]string{}, toks...), "x", "y", "layers", "s")
 	for i := 0; i < k; i++ {
-		link = append(link, toks[nd.Choose("tok"+strconv.Itoa(i), 0, len(toks)-1)])
+		if i == 0 {
+			link = append(link, toks[nd.Choose("tok"+strconv.Itoa(i), 0, len(toks)-1)])
+		} else {
+			link = append(link, more[nd.Choose("tok"+strconv.Itoa(i), 0, len(more)-1)])
+		}
 	}
 	site := nd.Choose("site", 0, 3)
 	val := strings.Join(link, ".")
